@@ -181,6 +181,7 @@ def gen_bounds(c, scale):
             val = db[name]
         b[name] = val
     b["UNDEF"] = None
+    b["DIVZERO"] = None
     return b
 
 
